@@ -418,6 +418,11 @@ func (v *visitor) MethodNode(node *ast.MethodNode) reflect.Type {
 	if !node.NilSafe {
 		return v.error(node, "type %v has no method %v", t, node.Method)
 	}
+	// The method is only known at run time; its arguments are part of the
+	// expression all the same and have to be checked and typed.
+	for _, arg := range node.Arguments {
+		v.visit(arg)
+	}
 	return nil
 }
 
